@@ -171,7 +171,8 @@ class SmoothingFilter(
             raise TypeError(
                 'The axis_kernel_array property must be an instance of '
                 'numpy.ndarray!')
-        self._axis_kernel_array = arr
+        # Keep an own copy, the array of the caller could be changed later.
+        self._axis_kernel_array = np.array(arr)
 
 
 class BlockSmoothingFilter(
